@@ -59,6 +59,7 @@ struct probe {
 extern "C" void e_ctor(xsimd::detail::supported_arch* p) { new (p) xsimd::detail::supported_arch(); }
 extern "C" unsigned e_avail(xsimd::detail::supported_arch* out) { *out = xsimd::available_architectures(); return out->sse2; }
 %(dispatch)s
+%(order)s
 '''
 ARCH_CPP = {"sse2": "xsimd::sse2", "sse3": "xsimd::sse3", "ssse3": "xsimd::ssse3", "sse4_1": "xsimd::sse4_1", "sse4_2": "xsimd::sse4_2",
             "fma3_sse42": "xsimd::fma3<xsimd::sse4_2>", "fma4": "xsimd::fma4", "avx": "xsimd::avx", "fma3_avx": "xsimd::fma3<xsimd::avx>",
@@ -97,7 +98,8 @@ def run(tier, seed):
     for n, l in enumerate(lists):
         al = "xsimd::arch_list<%s>" % ", ".join(ARCH_CPP[a] for a in l)
         disp.append('extern "C" int e_dispatch_%d(int x) { auto d = xsimd::dispatch<%s>(probe{}); return d(x); }' % (n, al))
-    tu = TU % {"ids": ids, "dispatch": "\n".join(disp)}
+    from . import c20
+    tu = TU % {"ids": ids, "dispatch": "\n".join(disp), "order": "#include <type_traits>\n" + "\n".join(c20.order_tu_lines())}
     bc, fnmap, tsec = pipeline.compile_tu(wd, "c15", tu)
     ctor = "_ZN5xsimd6detail14supported_archC2Ev"
     avail = "_ZN5xsimd23available_architecturesEv"
@@ -107,6 +109,9 @@ def run(tier, seed):
     jobs = [{"target": ctor, "out": os.path.join(wd, "ctor.c")}, {"target": avail, "out": os.path.join(wd, "avail.c"), "keep": [ctor]}]
     for i, n in enumerate(sorted(ops)):
         jobs.append({"target": n, "out": os.path.join(wd, "disp_%d.c" % i), "keep": [avail]})
+    order_targets = ["geom_row_%d" % i for i in range(len(c20.ORDER))] + ["geom_lists"]
+    for t in order_targets:
+        jobs.append({"target": t, "out": os.path.join(wd, t + ".c")})
     res = pipeline.run_ll2c(bc, jobs, wd, "c15")
     for j, r in zip(jobs, res):
         if not r.get("ok"):
@@ -207,6 +212,16 @@ def run(tier, seed):
                                         note="walk_archs recursion inlined; exactly-once, first available member, argument forwarded, result returned")),
               wd, "disp_%d" % i, jobs[2 + i]["out"], contract, harness, n, replace=[avail] if any(c["name"] == avail for c in dj["callees"]) else [],
               attempts=(("concrete", "sat", 300), ("concrete", "cadical", 600)), defs=CPU)
+    # ---- (d) "the default list is ordered best-first with best_arch at its head": closed facts over the real lists (shared with C20)
+    for t in order_targets:
+        k = [j["target"] for j in jobs].index(t)
+        r = res[k]
+        P, ST = r["target"]["params"][0]["name"], r["target"]["params"][0]["type"][:-1].strip()
+        ens, title = c20.order_contract(t, P)
+        chunks = [" && ".join(ens[q:q + 12]) for q in range(0, len(ens), 12)]
+        c = "#define CONTRACT_%s \\\n" % t + "".join("  __CPROVER_ensures(%s) \\\n" % e for e in chunks) + "  __CPROVER_assigns(*%s)\n" % P
+        h = "void harness(void) { %s O; %s(&O); __CPROVER_assert(0, \"canary: end of harness is reachable\"); }\n" % (ST, t)
+        B.add((lambda rr, title=title: S.add(title, "include/xsimd/config/xsimd_arch.hpp", rr)), wd, t, jobs[k]["out"], c, h, t, attempts=(("concrete", "sat", 300),))
     B.run()
     rep.notes["dispatch_lists"] = len(lists)
     rep.notes["configuration_space"] = "all values of CPUID.1, CPUID.7.0, CPUID.7.1, CPUID.80000001 registers and XCR0 (symbolic), under the XCR0 consistency of the statement"
